@@ -5,7 +5,7 @@ import functools
 
 
 def assemble(data, rowptr, colidx, ncols):
-    rowidx = numpy.concatenate([numpy.full(n, i) for i, n in enumerate(numpy.diff(rowptr))])
+    rowidx = numpy.repeat(numpy.arange(len(rowptr)-1), numpy.diff(rowptr))
     shape = len(rowptr)-1, ncols
     array = numpy.zeros(shape, dtype=data.dtype)
     array[rowidx, colidx] = data
